@@ -163,6 +163,8 @@ func c07GenQuery(rng *rand.Rand, w *bufio.Writer, idx string) {
 	limit := 0
 	if rng.Intn(2) == 0 {
 		limit = 1 + rng.Intn(6)
+	} else if rng.Intn(25) == 0 {
+		limit = -1 - rng.Intn(3) // a negative limit: nothing
 	}
 	ft, tt := "-", "-"
 	if rng.Intn(5) < 3 {
